@@ -118,6 +118,8 @@ class SpecEval:
         import builtins
         if hasattr(builtins, e.id):
             return static(getattr(builtins, e.id))
+        if e.id in self.W.type_names:
+            return static(self.W.type_names[e.id])
         raise Unsupported('unbound name %s in specification' % e.id)
 
     def s_Tuple(self, e, cx):
